@@ -74,7 +74,7 @@ CHECKS += [
      "text": "A scripted stream returns 0.0, 5e-324, 2**-53, 0.5 or 1-2**-53 at chosen uniform positions (all single placements and all pairs among the first four) for every class and parameter regime; each cell checks that drawing never raises, stays in the support, equals an equally scripted twin, is unaffected by a second instance, never consumes the old stream after re-pointing and drops cached state; constructors reject parameters outside and accept parameters inside the documented domain (open finding D20 for p in {0,1} of Geometric/NegBinomial).",
      "note": "shape-like parameters within [0.1, 100]; overflow for more extreme parameters is not judged"},
     {"property_id": "C18", "level": "exploration", "design_ref": "DESIGN.md §4.14",
-     "technique": "deterministic simulation (history + reference-model idiom with failure atomicity, scheduler idle; weak fit): seeded operation-and-rejection histories over parameter trees",
+     "technique": "deterministic simulation: seeded operation-and-rejection histories over parameter trees against a reference tree with failure atomicity (single caller: scheduler idle, weak fit), plus a two-caller-thread layer under the baton scheduler (one thread constructs bounded parameters, the other sets illegal values through the map; pre-emption at the lines of parameters.py)",
      "text": "Seeded search over histories of constructing (valid, invalid default, duplicate key), setting (valid, wrong type, out of bounds, read-only), getting and removing by dotted key and the model-level set/get round trip on trees of all eight parameter classes; after every operation the whole real tree is compared with a reference tree; rejected operations change nothing.",
      "note": "bool never offered to int/float parameters; absent-key removal not generated"},
 ]
